@@ -125,11 +125,12 @@ class n0list(n0list_):
             else:
                 return self._find(xpath_found_str, self, return_lists)
         node_name, node_index = split_name_index(xpath_list[0])
-        if node_name:
-            #--------------------------------
-            # NOT FOUND: Node name in list
-            #--------------------------------
-            return parent_node, None, None, xpath_found_str, xpath_list
+        if node_name or isinstance(node_index, tuple):
+            # *******************************
+            # Name or condition [key=value] for the list -- [*] was skipped in xpath: n0dict._find() knows these indulges
+            # and applies the step to every item of the list, self is still the root of the search
+            # *******************************
+            return n0dict._find(self, xpath_list, parent_node, return_lists, xpath_found_str)
         # ##########################################################################################
         # Index in n0list (node_index is not None)
         # ##########################################################################################
@@ -148,7 +149,7 @@ class n0list(n0list_):
                 for i, next_parent_node in enumerate(parent_node):
                     if isinstance(next_parent_node, dict):
                         cur_parent_node, cur_node_name_index, cur_value, cur_found_xpath_str, \
-                            cur_not_found_xpath_list = n0dict._find(next_parent_node, xpath_list[1:], next_parent_node, return_lists,  xpath_found_str + f"[{i}]")
+                            cur_not_found_xpath_list = n0dict._find(self, xpath_list[1:], next_parent_node, return_lists,  xpath_found_str + f"[{i}]")
                     elif isinstance(next_parent_node, (list, tuple)):
                         cur_parent_node, cur_node_name_index, cur_value, cur_found_xpath_str, \
                             cur_not_found_xpath_list = self._find(xpath_list[1:], next_parent_node, return_lists, xpath_found_str + f"[{i}]")
@@ -195,7 +196,7 @@ class n0list(n0list_):
                     #*******************************
                     next_parent_node =  parent_node[node_index_int]
                     if isinstance(next_parent_node, dict):
-                        return n0dict._find(next_parent_node, xpath_list[1:], next_parent_node, return_lists, f"{xpath_found_str}[{node_index_int}]")
+                        return n0dict._find(self, xpath_list[1:], next_parent_node, return_lists, f"{xpath_found_str}[{node_index_int}]")
                     if isinstance(next_parent_node, (list, tuple)):
                         return self._find(xpath_list[1:], next_parent_node, return_lists, f"{xpath_found_str}[{node_index_int}]")
                     else:
